@@ -55,6 +55,7 @@ def loads_by_two_workers(events):
             name = ev.split(':', 1)[1]
         else:
             continue
+        name = os.path.normpath(name)   # the file, however the name is spelled (./f and f are one file)
         if owner.setdefault(name, w) != w:
             bad.add(name)
     return sorted(bad)
